@@ -12,13 +12,16 @@ BAD_KINDS = ('fail', 'error', 'error_setup', 'error_teardown', 'error_both', 'fa
 ALL_KINDS = GOOD_KINDS + BAD_KINDS
 
 SIMPLE_EXCS = ('ValueError', 'KeyError', 'CustomError', 'RuntimeError', 'TypeError', 'OSError')
+# what a layer hook may raise: also exception classes that mean something special elsewhere (SkipTest in a test,
+# NotImplementedError in a tearDown) - raised by a setUp they are ordinary failures
+LAYER_EXCS = SIMPLE_EXCS + ('SkipTest', 'SkipTest', 'AssertionError', 'NotImplementedError')
 ALL_EXCS = tuple(runtime.ERROR_EXCS)
 ODD_EXCS = tuple(runtime.ODD_EXCS)
 
 
 @st.composite
 def layer_dags(draw, max_layers=5, min_layers=0, hooks='any', faults=None, nie=False, kinds=('class', 'inst'),
-               fault_excs=SIMPLE_EXCS):
+               fault_excs=LAYER_EXCS):
     """layers[i] may only name bases j < i (a DAG by construction); names are a generated permutation"""
     n = draw(st.integers(min_layers, max_layers))
     names = draw(st.permutations(LAYER_NAMES))[:n]
@@ -50,7 +53,8 @@ def layer_dags(draw, max_layers=5, min_layers=0, hooks='any', faults=None, nie=F
             f = {}
             for h in ('setUp', 'tearDown'):
                 if h in eff[i] and h in faults and draw(st.integers(0, 99)) < faults[h]:
-                    f[h] = draw(st.sampled_from(fault_excs))
+                    f[h] = draw(st.sampled_from(fault_excs if h == 'setUp' else
+                                                [x for x in fault_excs if x != 'NotImplementedError']))
             if nie and 'tearDown' in eff[i] and 'tearDown' not in f and draw(st.integers(0, 99)) < nie:
                 f['tearDown'] = 'NIE'
             if f:
@@ -129,7 +133,7 @@ def suite_tree(draw, nlayers, depth=2, kinds=ALL_KINDS, max_tests=4, levels=Fals
 def worlds(draw, max_layers=4, min_layers=0, hooks='any', faults=None, nie=0, layer_kinds=('class', 'inst'),
            kinds=ALL_KINDS, max_modules=2, depth=2, max_tests=4, levels=False, excs=SIMPLE_EXCS,
            inst_attrs=False, explicit_unit=False, weights_good=50, layer_decl=60, max_children=3,
-           fault_excs=SIMPLE_EXCS, sub_skip=False):
+           fault_excs=LAYER_EXCS, sub_skip=False):
     layers = draw(layer_dags(max_layers=max_layers, min_layers=min_layers, hooks=hooks, faults=faults, nie=nie,
                              kinds=layer_kinds, fault_excs=fault_excs))
     nmod = draw(st.integers(1, max_modules))
